@@ -65,12 +65,25 @@ FUNCS += [
     dict(id='StartsWith', file='src/pointer.rs', fn='starts_with', impl=PTR_IMPL, lean='Pointer.starts_with', params=[('self', 'ptrself'), ('other', 'ptrself')], ret='resval', rtype='Res Unit Bool'),
     dict(id='Intersection', file='src/pointer.rs', fn='intersection', impl=PTR_IMPL, lean='Pointer.intersection', params=[('self', 'ptrself'), ('other', 'ptrself')], ret='pure', rtype='Bytes', imports=['IsRoot', 'SplitAt']),
 ]
-SIBLINGS = {'is_root': ('Pointer.is_root', 'bool'), 'count': ('Pointer.count', 'nat'), 'split_at': ('Pointer.split_at', 'opt(tuple:bytes,bytes)'),
+WALK_T = 'Res ResolveErr (Loc × Val)'
+FUNCS += [
+    dict(id='ParseIndex', file='src/resolve.rs', fn='parse_index', impl=None, lean='resolve.parse_index',
+         params=[('token', 'tok'), ('array_len', 'nat'), ('position', 'nat'), ('offset', 'nat')], ret='res', rtype='Res ResolveErr Nat', imports=['ForLen']),
+    dict(id='ResolveJson', file='src/resolve.rs', fn='resolve', mod='json', impl=r"impl Resolve for Value", lean='json.resolve',
+         params=[('self', 'vroot'), ('ptr', 'ptrself')], ret='res', rtype=WALK_T, imports=['ForLen', 'SplitFront']),
+    dict(id='ResolveMutJson', file='src/resolve.rs', fn='resolve_mut', mod='json', impl=r"impl ResolveMut for Value", lean='json.resolve_mut',
+         params=[('self', 'vroot'), ('ptr', 'ptrself')], ret='res', rtype=WALK_T, imports=['ParseIndex', 'SplitFront']),
+    dict(id='ResolveToml', file='src/resolve.rs', fn='resolve', mod='toml', impl=r"impl Resolve for Value", lean='toml.resolve',
+         params=[('self', 'vroot'), ('ptr', 'ptrself')], ret='res', rtype=WALK_T, imports=['ForLen', 'SplitFront']),
+    dict(id='ResolveMutToml', file='src/resolve.rs', fn='resolve_mut', mod='toml', impl=r"impl ResolveMut for Value", lean='toml.resolve_mut',
+         params=[('self', 'vroot'), ('ptr', 'ptrself')], ret='res', rtype=WALK_T, imports=['ForLen', 'SplitFront']),
+]
+SIBLINGS = {'split_front': ('Pointer.split_front', 'opt(tuple:tok,ptrself)'), 'is_root': ('Pointer.is_root', 'bool'), 'count': ('Pointer.count', 'nat'), 'split_at': ('Pointer.split_at', 'opt(tuple:bytes,bytes)'),
             'front': ('Pointer.front', 'opt(bytes)'), 'back': ('Pointer.back', 'opt(bytes)')}
 
 LEANTY = {'nat': 'Nat', 'bool': 'Bool', 'bytes': 'Bytes', 'cow': 'Cow', 'optnat': 'Option Nat', 'toklist': 'List Bytes',
           'tok': 'Bytes', 'index': 'Index', 'bound': 'Bound', 'ptr': 'Bytes', 'span': 'Span', 'tokself': 'Bytes',
-          'intocow': 'Bytes', 'unit': 'Unit', 'ptrself': 'Bytes'}
+          'intocow': 'Bytes', 'unit': 'Unit', 'ptrself': 'Bytes', 'vref': 'Loc × Val', 'vroot': 'Val'}
 
 # enums the subset may match on / construct: type tag -> [(lean ctor, [rust paths], [field types])]
 ENUMS = {
@@ -78,6 +91,7 @@ ENUMS = {
     'bound': [('.included', ['Bound::Included'], ['nat']), ('.excluded', ['Bound::Excluded'], ['nat']),
               ('.unbounded', ['Bound::Unbounded'], [])],
     'optnat': [('some', ['Some'], ['nat']), ('none', ['None'], [])],
+    'vref': [('.arr', ['Value::Array'], ['aref']), ('.obj', ['Value::Object', 'Value::Table'], ['oref']), ('.scalar', ['<scalar>'], ['atom'])],
 }
 # unit-like error constants
 UNITCTORS = {
@@ -89,6 +103,10 @@ PANIC_IDX = '.panic "index out of bounds"'
 PANIC_SLICE = '.panic "slice index out of range"'
 
 BYTESLIKE = ('bytes', 'tok', 'ptr', 'ptrself')
+def is_res(ty): return ty.startswith('res(')
+def res_parts(ty):
+    t, e = ty[4:-1].rsplit(';', 1); return t, e
+def mk_res(t, e): return f'res({t};{e})'
 def is_opt(ty): return ty == 'optnat' or ty.startswith('opt(')
 def opt_inner(ty): return 'nat' if ty == 'optnat' else ty[4:-1]
 def mk_opt(inner): return 'optnat' if inner == 'nat' else f'opt({inner})'
@@ -109,7 +127,7 @@ def paren(s):
 class Fn:
     def __init__(self, spec, src, cst):
         self.spec = spec; self.cst = cst
-        sig, body = find_fn(src, spec['fn'], spec['impl'])
+        sig, body = find_fn(src, spec['fn'], spec['impl'], mod=spec.get('mod'))
         self.text = sig + ' ' + body
         self.name, self.rparams, self.rret, self.block = parse_fn(sig, body)
         self.loops = []       # emitted loop definitions (strings)
@@ -264,6 +282,7 @@ class Fn:
                 v = segs[0]
                 if v in env:
                     ty = env[v]
+                    if ty == 'vroot': return k(f"(([] : Loc), {v})", 'vref')
                     if ty.startswith('alias:'):      # e.g. self of a Token: the encoded bytes
                         return k(ty.split(':')[1], ty.split(':')[2])
                     return k(v, ty)
@@ -306,6 +325,14 @@ class Fn:
             return go(0, [])
         if t == 'try':
             def after(a, ta):
+                if is_res(ta):
+                    if self.retkind != 'res': raise Unsupported("? on a Result in a function not returning Result")
+                    tt, te = res_parts(ta)
+                    if a.startswith('(Res.ok ') and a.endswith(')') and a.count('(') == a.count(')'):
+                        return k(a[len('(Res.ok '):-1], tt)
+                    if a.startswith('(Res.err '): return ctx.ret(a)
+                    v = self.fresh('v'); ev = self.fresh('e'); mv = self.fresh('m')
+                    return paren(f"match {a} with\n| .err {ev} => {ctx.ret(f'(Res.err {ev})')}\n| .panic {mv} => {ctx.ret(f'(Res.panic {mv})')}\n| .ok {v} =>\n{ind(k(v, tt))}")
                 if ta != 'optnat': raise Unsupported("? on " + ta)
                 if self.retkind != 'optres': raise Unsupported("? in a function not returning Option")
                 v = self.fresh('v')
@@ -316,6 +343,11 @@ class Fn:
             if ix[0] == 'range':
                 return self.slice(recv, ix, env, ctx, k)
             def after(r, tr):
+                if tr == 'aref':
+                    def after_a(i, ti):
+                        c = self.fresh('c')
+                        return paren(f"match {r}.2[{i}]? with\n| none => {ctx.ret(PANIC_IDX)}\n| some {c} =>\n{ind(k(f'({r}.1 ++ [Step.idx {i}], {c})', 'vref'))}")
+                    return self.E(ix, env, ctx, after_a)
                 if tr not in ('bytes', 'tok'): raise Unsupported("indexing a " + tr)
                 def after2(i, ti):
                     v = self.fresh('b')
@@ -327,6 +359,15 @@ class Fn:
             f = e[1]
             if f[0] != 'path': raise Unsupported("call of a non-path")
             ps = self.pathstr(f[1]); args = e[2]
+            if ps in ('Ok', 'Err') and len(args) == 1:
+                arg = args[0]
+                if arg[0] == 'tuple' and not arg[1]: return k(f"(Res.{ps.lower()} ())", mk_res('unit', '?') if ps == 'Ok' else mk_res('?', 'unit'))
+                return self.E(arg, env, ctx, lambda a, ta: k(f"(Res.{ps.lower()} {a})", mk_res(ta, '?') if ps == 'Ok' else mk_res('?', ta)))
+            if ps == 'parse_index' and len(args) == 4:
+                def go(i, acc):
+                    if i == 4: return k(f"(resolve.parse_index {' '.join(acc)})", mk_res('nat', 'resolveerr'))
+                    return self.E(args[i], env, ctx, lambda a, ta: go(i + 1, acc + [a]))
+                return go(0, [])
             if ps == 'Some' and len(args) == 1:
                 return self.E(args[0], env, ctx, lambda a, ta: k(f"(some {a})", mk_opt('bytes' if ta in BYTESLIKE else ta)))
             if ps in ('Vec::with_capacity', 'String::with_capacity') and len(args) == 1:
@@ -370,9 +411,25 @@ class Fn:
                         return k(f"(ParseError.invalidEncoding {o} {s}.offset {s}.kind)", 'parseerror')
                     return self.E(fields['source'], env, ctx, after2)
                 return self.E(fields['offset'], env, ctx, after)
+            if ps in ('Error::FailedToParseIndex', 'Error::OutOfBounds', 'Error::NotFound', 'Error::Unreachable') and self.spec['file'].endswith('resolve.rs'):
+                ctor = {'Error::FailedToParseIndex': 'failedToParseIndex', 'Error::OutOfBounds': 'outOfBounds', 'Error::NotFound': 'notFound',
+                        'Error::Unreachable': 'unreachable'}[ps]
+                want = ['position', 'offset'] + (['source'] if ctor in ('failedToParseIndex', 'outOfBounds') else [])
+                if sorted(fields) != sorted(want): raise Unsupported("fields of " + ps)
+                def go(i, acc):
+                    if i == len(want): return k(f"(ResolveErr.{ctor} {' '.join(acc)})", 'resolveerr')
+                    return self.E(fields[want[i]], env, ctx, lambda a, ta: go(i + 1, acc + [a]))
+                return go(0, [])
             raise Unsupported("struct literal " + ps)
         if t == 'mcall':
             return self.mcall(e, env, ctx, k)
+        if t == 'match':
+            arms = [([p], g, b) for (p, g, b) in e[2]]
+            def after_scrut(a, ta):
+                code = self.compile_match(arms, [(a, ta)], env, lambda body, env2: self.E(body, env2, ctx, k))
+                if code is None: raise Unsupported("empty match")
+                return code
+            return self.E(e[1], env, ctx, after_scrut)
         if t == 'block' and e[2] is not None:
             if not e[1]: return self.E(e[2], env, ctx, k)
             if all(st[0] == 'let' for st in e[1]):
@@ -434,7 +491,7 @@ class Fn:
             if name in ('bytes', 'as_bytes', 'as_str', 'as_ref') and not args:
                 if tr in BYTESLIKE: return k(r, tr)
                 if tr == 'cow': return k(f"{r}.bytes", 'bytes')
-            if name == 'encoded' and not args and tr == 'tok': return k(r, 'bytes')
+            if name == 'encoded' and not args and tr in ('tok', 'bytes'): return k(r, 'bytes')
             if name == 'into' and not args and tr == 'intocow': return k(f"(Cow.borrowed {r})", 'cow')
             if name == 'tokens' and not args and tr == 'ptr': return k(f"(tokens {r})", 'toklist')
             if name == 'enumerate' and not args and tr in ('bytes', 'toklist'): return k(r, 'enum:' + tr)
@@ -450,6 +507,29 @@ class Fn:
             if name == 'checked_add' and len(args) == 1 and tr == 'nat':
                 return self.E(args[0], env, ctx, lambda a, ta: k(f"(if {r} + {a} ≤ usizeMax then some ({r} + {a}) else none)", 'optnat'))
             if name == 'into_inner' and not args and tr.startswith('tuple:'): return k(r, tr)
+            # ---- tree walks ------------------------------------------------------------------------
+            if tr == 'tok' or (tr in ('bytes',) and name in ('to_index', 'decoded')):
+                if name == 'to_index' and not args: return k(f"(Token.toIndex {r})", mk_res('index', 'pie'))
+                if name == 'decoded' and not args: return k(f"(Token.decoded {r})", 'cow')
+            if tr == 'cow' and name in ('as_ref', 'as_str') and not args: return k(f"{r}.bytes", 'bytes')
+            if tr == 'aref' and name == 'len' and not args: return k(f"{r}.2.length", 'nat')
+            if tr == 'oref' and name in ('get', 'get_mut') and len(args) == 1:
+                def aft_key(a, ta):
+                    if ta not in BYTESLIKE: raise Unsupported("map key of type " + ta)
+                    c = self.fresh('c')
+                    return k(f"(Option.map (fun {c} => ({r}.1 ++ [Step.key {a}], {c})) (lookup {a} {r}.2))", 'opt(vref)')
+                return self.E(args[0], env, ctx, aft_key)
+            if tr == 'index' and name == 'for_len' and len(args) == 1:
+                return self.E(args[0], env, ctx, lambda a, ta: k(f"(Index.for_len {r} {a})", mk_res('nat', 'ooberr')))
+            if is_res(tr) and name == 'map_err' and len(args) == 1 and args[0][0] == 'closure':
+                tt, te = res_parts(tr)
+                pat, env2 = self.closure_head(args[0], te, env)
+                body, tb = self.term(args[0][2], env2)
+                a = self.fresh('a'); m = self.fresh('m')
+                return k(paren(f"match {r} with\n| .ok {a} => Res.ok {a}\n| .err {pat} => Res.err {body}\n| .panic {m} => Res.panic {m}"), mk_res(tt, tb))
+            if is_opt(tr) and name == 'ok_or' and len(args) == 1:
+                v = self.fresh('v')
+                return self.E(args[0], env, ctx, lambda a, ta: k(paren(f"match {r} with\n| some {v} => Res.ok {v}\n| none => Res.err {a}"), mk_res(opt_inner(tr), ta)))
             # ---- &Pointer / &str receivers -------------------------------------------------------
             if tr in BYTESLIKE:
                 if name in SIBLINGS and tr == 'ptrself':
@@ -654,6 +734,7 @@ class Fn:
             return paren(pre + ind(inner)) if pre else inner
         if ty in ENUMS:
             alts = []
+            smatch = f"{s}.2" if ty == 'vref' else s
             for ci, (lc, rps, fts) in enumerate(ENUMS[ty]):
                 names = None; rows2 = []
                 for (ps, g, pl) in rows:
@@ -671,8 +752,12 @@ class Fn:
                 sc2 = scruts[:col] + list(zip(names, fts)) + scruts[col + 1:]
                 inner = self.compile_match(rows2, sc2, env, body_k)
                 if inner is None: raise Unsupported("non-exhaustive match")
+                if ty == 'vref':
+                    # the payload of a container reached through a reference keeps the reference's location
+                    pre = ''.join(f"let {n} := ({s}.1, {n})\n" for n, ft in zip(names, fts) if ft in ('aref', 'oref'))
+                    inner = pre + inner
                 alts.append(f"| {lc}{''.join(' ' + n for n in names)} =>\n{ind(inner)}")
-            return paren(f"match {s} with\n" + '\n'.join(alts))
+            return paren(f"match {smatch} with\n" + '\n'.join(alts))
         if ty == 'nat':
             lits = [self.lit_of(q) for q in (p[1] if p[0] == 'por' else [p])]
             if any(l is None for l in lits): raise Unsupported("pattern on a number")
@@ -790,6 +875,7 @@ class Fn:
             return self.E(e[1], env, ctx, after)
         if t == 'for': return self.for_loop(e, env, ctx, rest)
         if t == 'while': return self.while_loop(e, env, ctx, rest)
+        if t == 'whilelet': return self.whilelet_loop(e, env, ctx, rest)
         raise Unsupported("statement " + t)
 
     def branch(self, env, ctx, rest, shape, branches, cond_effect):
@@ -842,7 +928,10 @@ class Fn:
                 arg = e[2][0]
                 if arg[0] == 'tuple' and not arg[1]: return ctx.ret(f"{which} ()")
                 return self.E(arg, env, ctx, lambda a, ta: ctx.ret(f"{which} {a}"))
-            raise Unsupported("returned value is not Ok(..)/Err(..)")
+            def after_r(a, ta):
+                if is_res(ta): return ctx.ret(a)
+                raise Unsupported("returned value is not a Result")
+            return self.E(e, env, ctx, after_r)
         if rk == 'optres':
             if t == 'path' and e[1] == ['None']: return ctx.ret('.ok none')
             if t == 'call' and e[1][0] == 'path' and self.pathstr(e[1][1]) == 'Some' and len(e[2]) == 1:
@@ -891,7 +980,8 @@ class Fn:
                 if t2.startswith('alias:') and t2.split(':')[1] == v: return LEANTY[t2.split(':')[2]]
             raise Unsupported("type of " + v)
         if ty not in LEANTY: raise Unsupported("loop-carried variable of type " + ty)
-        return LEANTY[ty]
+        t = LEANTY[ty]
+        return f"({t})" if ' ' in t else t
 
     def for_loop(self, e, env, ctx, rest):
         pat, it, body = self.strip_ref(e[1]), e[2], self.norm_stmt_block(e[3])
@@ -983,6 +1073,35 @@ class Fn:
             f"def {lname}{params} : {' → '.join(argtys)} → {rty}\n  | {', '.join(['0'] + ['_'] * len(muts))} => .ret (.panic \"fuel\")\n"
             f"  | {', '.join(['_fuel + 1'] + muts)} =>\n{ind(loop_code, 4)}")
         callsite = f"{lname} {' '.join(caps + [f'({b} - {a} + 1)'] + muts)}"
+        return self.after_loop(callsite, True, muts, sigma, env, ctx, rest)
+
+    def whilelet_loop(self, e, env, ctx, rest):
+        """`while let Some(pat) = <pure option expr> { body }` — fuel = length of the byte string the header consumes + 1"""
+        pat, hdr, body = self.strip_ref(e[1]), e[2], self.norm_stmt_block(e[3])
+        if self.retkind == 'pure': raise Unsupported("while-let loop in a function that cannot panic")
+        if not (pat[0] == 'pctor' and self.pathstr(pat[1]) == 'Some' and len(pat[2]) == 1): raise Unsupported("while let pattern")
+        if not (hdr[0] == 'mcall' and hdr[1][0] == 'path' and len(hdr[1][1]) == 1 and env.get(hdr[1][1][0]) in ('ptrself', 'bytes')):
+            raise Unsupported("while let header")
+        consumed = hdr[1][1][0]
+        muts, caps = self.loop_common(body, env, [])
+        if consumed not in muts: raise Unsupported("while let: the scrutinee is not advanced by the body")
+        self.nloop += 1
+        lname = f"{self.spec['lean']}.loop{self.nloop}"
+        sigma = self.tuple_of(muts); sty = ' × '.join(self.lty(env, v) for v in muts)
+        rty = f"Flow ({self.rtype}) ({sty})"
+        call = lambda env3: f"{lname} {' '.join(caps + ['_fuel'] + muts)}"
+        ctx_b = Ctx(lambda t: f".ret ({t})", cont=call, brk=lambda env3: f".done {sigma}")
+        h, th = self.term(hdr, env)
+        if not is_opt(th): raise Unsupported("while let on " + th)
+        binder, env_b = self.closure_head(('closure', [pat[2][0]], None), opt_inner(th), env)
+        body_code = self.S(body, env_b, ctx_b, call)
+        loop_code = paren(f"match {h} with\n| none => .done {sigma}\n| some {binder} =>\n{ind(body_code)}")
+        params = ''.join(f" ({c} : {self.lty(env, c)})" for c in caps)
+        argtys = ['Nat'] + [self.lty(env, v) for v in muts]
+        self.loops.append(
+            f"def {lname}{params} : {' → '.join(argtys)} → {rty}\n  | {', '.join(['0'] + ['_'] * len(muts))} => .ret (.panic \"fuel\")\n"
+            f"  | {', '.join(['_fuel + 1'] + muts)} =>\n{ind(loop_code, 4)}")
+        callsite = f"{lname} {' '.join(caps + [f'({consumed}.length + 1)'] + muts)}"
         return self.after_loop(callsite, True, muts, sigma, env, ctx, rest)
 
     # ---------------- the function ----------------------------------------------------------------
